@@ -75,12 +75,14 @@ theorem C02.src_node_manytoone_as_modelled :
       "      if outPck, errPck := n.action(proc, inPcks); errPck != nil",
       "        if errWriter == nil",
       "          errWriter = n.errPort.Open(proc)",
+      "        errPck = derive(errPck, inPcks...)",
       "        n.tracer.Link(inPck, errPck)",
       "        n.tracer.Write(errWriter, errPck)",
       "      else",
       "        if outPck != nil",
       "          if outWriter == nil",
       "            outWriter = n.outPort.Open(proc)",
+      "          outPck = derive(outPck, inPcks...)",
       "          n.tracer.Link(inPck, outPck)",
       "          n.tracer.Write(outWriter, outPck)",
       "        else",
@@ -147,13 +149,18 @@ theorem C02.src_node_onetoone_as_modelled :
       "  if outPck, errPck := n.action(proc, inPck); errPck != nil",
       "    if errWriter == nil",
       "      errWriter = n.errPort.Open(proc)",
+      "    errPck = derive(errPck, inPck)",
       "    n.tracer.Link(inPck, errPck)",
       "    n.tracer.Write(errWriter, errPck)",
       "  else",
-      "    if outWriter == nil",
-      "      outWriter = n.outPort.Open(proc)",
-      "    n.tracer.Link(inPck, outPck)",
-      "    n.tracer.Write(outWriter, outPck)",
+      "    if outPck != nil",
+      "      if outWriter == nil",
+      "        outWriter = n.outPort.Open(proc)",
+      "      outPck = derive(outPck, inPck)",
+      "      n.tracer.Link(inPck, outPck)",
+      "      n.tracer.Write(outWriter, outPck)",
+      "    else",
+      "      n.tracer.Write(nil, inPck)",
       "n.tracer.Drop(outWriter)",
       "n.tracer.Drop(errWriter)"
     ] ∧
